@@ -498,6 +498,10 @@ class Interp:
         return [st]
 
     def st_AnnAssign(self, s, st):
+        if (isinstance(s.target, ast.Name) and s.target.id in self.containers and s.value is not None
+                and ((isinstance(s.value, ast.List) and not s.value.elts) or (isinstance(s.value, ast.Dict) and not s.value.keys))):
+            st.env[s.target.id] = self.containers[s.target.id]()
+            return [st]
         if s.value is not None:
             self.bind(s.target, self.ev(s.value, st), st)
         return [st]
